@@ -1073,6 +1073,39 @@ func r17e(c *core.Ctx) {
 	}
 }
 
+// unixClassifier: h(addr) returns "unix" exactly when addr starts with "@" (and another constant otherwise).
+func unixClassifier(h *ssa.Function) bool {
+	if h.Blocks == nil || len(h.Params) != 1 {
+		return false
+	}
+	rets := returnsOf(h)
+	if len(rets) < 2 {
+		return false
+	}
+	for _, ret := range rets {
+		v, ok := core.ConstString(core.ReturnResults(ret)[0])
+		if !ok {
+			return false
+		}
+		under := 0
+		for _, cnd := range core.CondsAt(ret.Block()) {
+			if call, ok := cnd.Cond.(*ssa.Call); ok && core.CallName(call) == "strings.HasPrefix" && call.Call.Args[0] == ssa.Value(h.Params[0]) {
+				if s, ok := core.ConstString(call.Call.Args[1]); ok && s == "@" {
+					if cnd.Val {
+						under = 1
+					} else {
+						under = -1
+					}
+				}
+			}
+		}
+		if (v == "unix") != (under == 1) || under == 0 {
+			return false
+		}
+	}
+	return true
+}
+
 func r17f(c *core.Ctx) {
 	nu := c.Anchor("internal/upstream", "NewUpstream")
 	gd := c.Anchor("internal/upstream", "getDialAddr")
@@ -1262,6 +1295,22 @@ func r17f(c *core.Ctx) {
 		}
 		isUnix := func(cs []cnd) int {
 			for _, x := range cs {
+				// `classify(dial) == "unix"` where classify returns "unix" exactly for an "@" prefix
+				if cm, ok := core.CmpOf(x.Cond); ok && cm.Op == "==" {
+					for _, pair := range [][2]ssa.Value{{cm.XV, cm.YV}, {cm.YV, cm.XV}} {
+						call, isCall := pair[0].(*ssa.Call)
+						lit, isLit := core.ConstString(pair[1])
+						if !isCall || !isLit || lit != "unix" || len(call.Call.Args) != 1 || call.Call.Args[0] != ssa.Value(pDial) {
+							continue
+						}
+						if h := core.StaticCallee(call); h != nil && unixClassifier(h) {
+							if x.Val != cm.Neg {
+								return 1
+							}
+							return -1
+						}
+					}
+				}
 				if call, ok := x.Cond.(*ssa.Call); ok && core.CallName(call) == "strings.HasPrefix" && call.Call.Args[0] == ssa.Value(pDial) {
 					if s, ok := core.ConstString(call.Call.Args[1]); ok && s == "@" {
 						if x.Val {
@@ -1270,6 +1319,16 @@ func r17f(c *core.Ctx) {
 						return -1
 					}
 				}
+			}
+			return 0
+		}
+		// an address with the "@" prefix is not empty
+		dialGivenU := func(cs []cnd) int {
+			if r := dialGiven(cs); r != 0 {
+				return r
+			}
+			if isUnix(cs) == 1 {
+				return 1
 			}
 			return 0
 		}
@@ -1330,11 +1389,11 @@ func r17f(c *core.Ctx) {
 			for _, w := range ways(v, cs, 0) {
 				switch {
 				case w.leaf == ssa.Value(pDial):
-					if dialGiven(w.cs) != 1 {
+					if dialGivenU(w.cs) != 1 {
 						return false, "the override is used without `len(override) > 0`"
 					}
 				case w.leaf == ssa.Value(pURL):
-					if dialGiven(w.cs) != -1 {
+					if dialGivenU(w.cs) != -1 {
 						return false, "the URL host is used although an override may be given"
 					}
 				default:
@@ -1369,7 +1428,7 @@ func r17f(c *core.Ctx) {
 						why = whyC
 						break
 					}
-					if dialGiven(core.CondsAt(split.Block())) == 1 && isUnix(core.CondsAt(split.Block())) != -1 && len(ways(split.Call.Args[0], nil, 0)) == 1 {
+					if dialGivenU(core.CondsAt(split.Block())) == 1 && isUnix(core.CondsAt(split.Block())) != -1 && len(ways(split.Call.Args[0], nil, 0)) == 1 {
 						why = "a unix override may get a port"
 						break
 					}
@@ -1377,7 +1436,7 @@ func r17f(c *core.Ctx) {
 					continue
 				}
 				// a verbatim address: the unix override, or the chosen address that already has a port
-				if w.leaf == ssa.Value(pDial) && dialGiven(w.cs) == 1 && isUnix(w.cs) == 1 {
+				if w.leaf == ssa.Value(pDial) && dialGivenU(w.cs) == 1 && isUnix(w.cs) == 1 {
 					ok = true
 					continue
 				}
